@@ -19,11 +19,11 @@ PLAN = {
     "quick": {"configs": ["ext1", "ext0"], "nshards": 12, "nshards_ext0": 4, "timeout": 900},
     "thorough": {"configs": ["ext1", "ext0"], "nshards": 16, "timeout": 3400, "suite": ["ext1"]},
 }
-DECIDING = ["range.element", "range.end", "contains", "range.bound"]
-FLOORS = {"quick": {"range.element": 300000, "range.end": 5000, "contains": 20000, "range.bound": 5000},
+DECIDING = ["range.element", "range.end", "contains", "range.bound", "concurrent"]
+FLOORS = {"quick": {"range.element": 300000, "range.end": 5000, "contains": 20000, "range.bound": 5000, "concurrent": 10000},
           "thorough": {"range.element": 3 * 10**6, "range.end": 50000, "contains": 200000, "range.bound": 50000}}
 REQUIRED_HOOKS = ["Interval.range", "Interval.__contains__"]
-TECHNIQUE = "online checking generator wrapped around Interval.range (sequence oracle element by element), contracts on __contains__/__iter__; elements judged against an independent calendar model; containment probes written in other zones"
+TECHNIQUE = "online checking generator wrapped around Interval.range (sequence oracle element by element), contracts on __contains__/__iter__; elements judged against an independent calendar model; containment probes written in other zones; shared objects used by six threads at once (1 us switch interval), every outcome compared with the single-threaded, contract-judged one"
 LEVEL_TEXT = ("every element yielded by Interval.range during the workloads is compared online with the start shifted by k*n units, "
               "checked for strict monotonicity and containment, and exhaustion is checked against end-reachability; intervals are "
               "forward/inverted/absolute over DateTime (ranges crossing gaps and overlaps) and Date; held on what was observed")
@@ -200,6 +200,8 @@ def cases(M):
     n = (200000 if M.tier == "thorough" else 12000) // M.nshards
     names = gen.all_zones()
     host = gen.hostile(names)
+    if M.shard % 2 == 0:
+        yield {"k": "threads", "seed": r.randrange(1 << 30), "n": 5000 if M.tier == "thorough" else 1600}
     for j in range(n):
         isdate = j % 4 == 0
         unit = r.choice(UNITS[:4] if isdate else UNITS)
@@ -258,8 +260,43 @@ def cases(M):
                "naive": j % 7 == 0 or (edge is not None and j % 3 != 0)}
 
 
+def _threads(M, c):
+    """fresh Interval objects SHARED by six threads whose first iteration happens at the same time (forward, inverted,
+    absolute; range() and direct iteration; containment): every thread must see the single-threaded sequence"""
+    import random
+
+    from pvmon import conc
+
+    P = M.pendulum
+    r = random.Random(c["seed"])
+    items = []
+    for i in range(c["n"]):
+        isdate = i % 3 == 0
+        u = gen.modern_instant(r)
+        from pvmon.common import us_to_fields
+
+        a = P.Date(*us_to_fields(u)[:3]) if isdate else gen.mk(("UTC", "Europe/Paris", "America/New_York")[i % 3], u)
+        unit = r.choice(UNITS[:4] if isdate else UNITS[:7])
+        n = r.randrange(1, 5)
+        b = a.add(**{unit: n * r.randrange(0, 9)})
+        mode = i % 4
+        iv = P.interval(a, b) if mode == 0 else P.interval(b, a) if mode == 1 else P.interval(b, a, absolute=True) if mode == 2 else (a - b)
+        items.append((iv, unit, n))
+
+    def one(it):
+        iv, unit, n = it
+        got = [str(x) for x in itertools.islice(iv.range(unit, n), 60)]
+        return (tuple(got), tuple(str(x) for x in itertools.islice(iter(iv), 40)), iv.start in iv, iv.end in iv)
+
+    conc.differential(M, items, one, "C19/concurrent", show=lambda it: f"{it[0].start} -> {it[0].end} abs={it[0]._absolute} {it[1]} x{it[2]}")
+    M.cls("threads")
+    M.sample(c)
+
+
 def run(M, c):
     P = M.pendulum
+    if c.get("k") == "threads":
+        return _threads(M, c)
     unit, n, steps = c["unit"], c["step"], c["steps"]
     if c["date"]:
         from pvmon.common import us_to_fields
